@@ -3,6 +3,7 @@ package main
 import (
 	"crypto/sha1"
 	"encoding"
+	"encoding/hex"
 	"encoding/json"
 	"fmt"
 	"os"
@@ -247,7 +248,7 @@ func c18History(r *rng, nOps int, script *[]*string) (types []reflect.Type, gts 
 		gts, types = append(gts, g), append(types, g.t)
 	}
 	for _, t := range []reflect.Type{reflect.TypeOf(ShapeConflict{}), reflect.TypeOf(ShapeText{}), reflect.TypeOf(ShapeShadow{}),
-		reflect.TypeOf(ShapeEmbVal{}), reflect.TypeOf(ShapeEmbFirst{}), reflect.TypeOf(ShapeEmbLast{}), reflect.TypeOf(ShapeEmbTwo{}), reflect.TypeOf(ShapeEmbDeep{})} {
+		reflect.TypeOf(ShapeEmbVal{}), reflect.TypeOf(ShapeEmbFirst{}), reflect.TypeOf(ShapeEmbLast{}), reflect.TypeOf(ShapeEmbTwo{}), reflect.TypeOf(ShapeEmbDeep{}), reflect.TypeOf(ShapeConflict2{}), reflect.TypeOf(ShapeArrLen{})} {
 		gts, types = append(gts, nil), append(types, t)
 	}
 	nModelled = len(types)
@@ -387,6 +388,14 @@ func c18Order(seed uint64, tier string, scriptFile string, mode string) {
 	data, err := os.ReadFile(scriptFile)
 	must(err)
 	must(json.Unmarshal(data, &script))
+	for i, x := range script {
+		if x != nil {
+			raw, err := hex.DecodeString(*x)
+			must(err)
+			str := string(raw)
+			script[i] = &str
+		}
+	}
 	onlyH, onlyI := -1, -1
 	var shuf *rng
 	if strings.HasPrefix(mode, "only:") {
@@ -434,7 +443,13 @@ func c18Reversed(seed uint64, tier string, outDir string, rep *report) map[strin
 	var script []*string
 	for hI := 0; hI < nHist; hI++ {
 		_, _, _, _, rec := c18History(r, nOps, nil)
-		script = append(script, rec...)
+		for _, x := range rec { // hex: marshalled strings may hold bytes that are not valid UTF-8, which JSON would replace
+			if x != nil {
+				hxs := hex.EncodeToString([]byte(*x))
+				x = &hxs
+			}
+			script = append(script, x)
+		}
 	}
 	data, _ := json.Marshal(script)
 	sf := filepath.Join(outDir, "c18_script.json")
